@@ -80,6 +80,145 @@ def lex_string_outcomes(F, rep, fn, c1, c2):
     return res
 
 
+def _loop_heads(body):
+    """targets of the back edges of a body (depth-first search over the non-cleanup blocks)"""
+    succ = body.succ_map()
+    heads, state = set(), {}
+    stack = [(0, iter(succ[0]))]
+    state[0] = 1
+    while stack:
+        b, it = stack[-1]
+        for x in it:
+            if body.blocks[x]["cleanup"]:
+                continue
+            if state.get(x) == 1:
+                heads.add(x)
+            elif x not in state:
+                state[x] = 1
+                stack.append((x, iter(succ[x])))
+                break
+        else:
+            state[b] = 2
+            stack.pop()
+    return heads
+
+
+_INPUT_TYS = ("&str", "&[u8]", "&mut str", "&mut [u8]")
+
+
+def _skipped_classes(F, rep, sk):
+    """The characters skip_spaces skips, decided on its behaviour rather than on the std function it happens to use: the
+    function is walked once per interval class of the next character of the unconsumed input (and once for the end of the
+    input); every way of looking at the head of the input that the walk meets (`strip_prefix`, `starts_with`, `chars().next()`,
+    `bytes().next()`, `as_bytes().first()`, `is_empty`) answers for that character; a class is skipped when the walk comes
+    round to a loop head of skip_spaces again, and not skipped when it returns.  Returns (skipped code points, oddities)."""
+    body = sk.body
+    heads = _loop_heads(body)
+    unknown = set()
+
+    def lead(a):
+        return a if a < 0x80 else chr(a).encode("utf-8")[0]
+
+    def pat_matches(w, env, t, pat, a):
+        if a is None:
+            return False if not (isinstance(pat, tuple) and pat[0] == "str" and pat[1] == "") else True
+        if isinstance(pat, tuple) and pat[0] == "ref":
+            pat = env.get(pat[1])
+        if isinstance(pat, int):
+            return pat == a
+        if isinstance(pat, tuple) and pat[0] == "str":
+            if pat[1] == "":
+                return True
+            if ord(pat[1][0]) != a:
+                return False
+            if len(pat[1]) == 1:
+                return True
+            raise kwalk.WalkLimit("skip_spaces tests a multi-character prefix")
+        if isinstance(pat, tuple) and pat[0] == "fn":
+            pf = w.pure.get(pat[1])
+            if pf is not None:
+                r = pf(w, env, [a])
+                if isinstance(r, int):
+                    return bool(r)
+            c = F.fn_opt(pat[1])
+            if c is not None and c.body is not None:
+                res = set()
+                cw = kwalk.Walker(F, c.body, want_ret=True)
+                arg = str(c.body.argc)
+                for kind, marks, ret in cw.run(0, {arg: a}):
+                    res.add(dict(ret or ()).get("0"))
+                if len(res) == 1 and isinstance(next(iter(res)), int):
+                    return bool(next(iter(res)))
+        raise kwalk.WalkLimit("skip_spaces tests the input against a pattern that is not a constant character or predicate")
+
+    def outcomes(a):
+        def hook(w, bb, t, env, args):
+            n = callee_name(t) or ""
+            dst = w.norm(env, t["dst"])
+            if n in ("<str>::strip_prefix", "<str>::starts_with", "<[T]>::starts_with", "<[T]>::strip_prefix") and len(args) > 1:
+                if n.startswith("<[T]>"):
+                    raise kwalk.WalkLimit("skip_spaces tests a byte-slice prefix")
+                m = pat_matches(w, env, t, args[1], a)
+                if n.endswith("starts_with"):
+                    return int(m)
+                return ("var", OPTION, "Some" if m else "None")
+            if n in ("<core::str::iter::Chars as core::iter::traits::iterator::Iterator>::next",
+                     "<core::str::iter::Bytes as core::iter::traits::iterator::Iterator>::next"):
+                if env.get("#taken"):
+                    return None
+                env["#taken"] = 1
+                if a is None:
+                    return ("var", OPTION, "None")
+                env["%s@Some.0" % dst] = a if "Chars" in n else lead(a)
+                return ("var", OPTION, "Some")
+            if n in ("<[T]>::first", "<[u8]>::first"):
+                if a is None:
+                    return ("var", OPTION, "None")
+                env["#HEAD"] = lead(a)
+                env["%s@Some.0" % dst] = ("ref", "#HEAD")
+                return ("var", OPTION, "Some")
+            if n in ("<str>::is_empty", "<[T]>::is_empty"):
+                return int(a is None)
+            x0 = t["xs"][0] if t["xs"] else None
+            if x0 is not None and "t" in x0 and w.body.ty(x0["t"])["s"] in _INPUT_TYS and "t" in t["dst"]:
+                dt = w.body.ty(t["dst"]["t"])
+                if dt["s"] in kwalk._INT_BITS or (dt["k"] == "adt" and dt["d"] == OPTION):
+                    unknown.add(n)
+            return None
+
+        def on_term(w, bb, t, env):
+            if not isinstance(bb, kwalk.FrameBB) and bb in heads:
+                k = "#head%d" % bb
+                if env.get(k):
+                    return (kwalk.STOP, ("again",))
+                env[k] = 1
+            return None
+        w = kwalk.Walker(F, body, call_result=hook, on_term=on_term)
+        outs = w.run(0, {})
+        rep.states += w.states_explored
+        res = set()
+        for kind, marks, ret in outs:
+            if ("again",) in marks:
+                res.add("again")
+            elif kind == "return":
+                res.add("return")
+        return res
+    skipped, odd = set(), set()
+    rows = [(a, b, outcomes(a)) for a, b in chartab.representatives(body, "char", extra=[0x09, 0x0A, 0x0D, 0x20, 0x21, 0x85, 0xA0, 0xA1])]
+    rows.append((None, None, outcomes(None)))
+    for a, b, res in rows:
+        if res == {"again"} and a is not None:
+            if a == b:
+                skipped.add(a)
+            else:
+                odd.add("U+%04X..U+%04X" % (a, b))
+        elif res != {"return"}:
+            if unknown:
+                raise kwalk.WalkLimit("skip_spaces looks at the input through %s, which is not modelled" % sorted(unknown))
+            odd.add("%s:%s" % ("end-of-input" if a is None else "U+%04X..U+%04X" % (a, b), "/".join(sorted(res)) or "no-exit"))
+    return skipped, odd
+
+
 def rule_r1(F, rep):
     R = rep.rule("C20.R1", "std.parseJson accepts inside strings exactly the raw characters RFC 8259 §7 allows "
                  "(everything except U+0000..U+001F, the quote and the backslash), maps the escape letters "
@@ -126,15 +265,9 @@ def rule_r1(F, rep):
     # whitespace set of skip_spaces
     sk = F.fn("%s::skip_spaces" % LEX)
     rep.fn(sk)
-    pats = set()
-    for bb, t in sk.body.calls():
-        if (callee_name(t) or "") == "<str>::strip_prefix":
-            x = t["xs"][1]
-            if x["k"] == "const" and "v" in x:
-                pats.add(x["v"])
-            else:
-                pats.add("?")
-    ok = pats == {0x20, 0x09, 0x0A, 0x0D}
+    skipped, odd = _skipped_classes(F, rep, sk)
+    ok = skipped == {0x20, 0x09, 0x0A, 0x0D} and not odd
+    pats = set(skipped) | set(odd)
     rep.ob(R, "whitespace", ok, {"skipped": sorted(map(str, pats))})
     if not ok:
         rep.violation(R, "%s|whitespace" % sk.q, "JSON whitespace skipped: %s, RFC 8259 says space, tab, LF, CR" % sorted(map(str, pats)), sk.loc)
